@@ -18,7 +18,10 @@ RULE = (
     "a second document (a new type, an extension of that new type and an extension of the query root, "
     "in any order) is applied with extend_schema and compared likewise; "
     "35 labelled invalid documents must be rejected with SDLError / ExtensionError / SchemaError / "
-    "SchemaValidationError / GraphQLSyntaxError and nothing else. Non-trivial = distinct document "
+    "SchemaValidationError / GraphQLSyntaxError and nothing else. "
+    "The schema that was extended by the second document must be unchanged afterwards and "
+    "extendable again with the same result.  "
+    "Non-trivial = distinct document "
     "with >= 1 extension, recursion, default or description, or a labelled invalid one."
 )
 ASSUMPTIONS = ["expected defaults are the R-COERCE value of the declared literal under SDL semantics (enum names, transparent scalars)"]
